@@ -197,7 +197,45 @@ func c12Eval(s schema.Type, o *sx.Node) (res string, kept bool) {
 	if hasVal && cls.IsAtom("ok") {
 		res += " " + c12Canon(val)
 	}
-	return res, c12Canon(arg) == before
+	kept = c12Canon(arg) == before
+	if hasVal {
+		// the result belongs to the CALLER (a step handler works on its input): after it was printed the harness writes
+		// into every list and map of it.  A result that shares memory with the schema's state (the decoded defaults) then
+		// shows in GetDefaults (`state`) and in the next evaluation of the same call (`differs`, `after`)
+		func() {
+			defer func() { _ = recover() }()
+			c12Scribble(val, 0)
+		}()
+	}
+	return res, kept
+}
+
+const c12ScribbleMark = "verif: the caller wrote here"
+
+// c12Scribble writes into every []any / map[string]any / map[any]any reachable from a result through such containers.
+func c12Scribble(v any, depth int) {
+	if depth > 40 {
+		return
+	}
+	switch x := v.(type) {
+	case []any:
+		for _, e := range x {
+			c12Scribble(e, depth+1)
+		}
+		if len(x) > 0 {
+			x[0] = c12ScribbleMark
+		}
+	case map[string]any:
+		for _, e := range x {
+			c12Scribble(e, depth+1)
+		}
+		x[c12ScribbleMark] = true
+	case map[any]any:
+		for _, e := range x {
+			c12Scribble(e, depth+1)
+		}
+		x[c12ScribbleMark] = true
+	}
 }
 
 // mkLit (may be nil): the same schema with its objects NOT built by a constructor (struct literals: the decoded-
@@ -207,6 +245,10 @@ func c12RunHistory(mk func() schema.Type, calls []*sx.Node, probes []*sx.Node, c
 	s := mk()
 	state0 := c12State(s)
 	desc0, desc := c12Desc(s), "same"
+	// the unit caches (c12_units.go): expected content of every cell from a separate fresh instance; the used
+	// instance is looked at (passively) after every call, rejected ones included
+	unitsExp := c12UnitsExpected(mk())
+	unitsOK := c12UnitsCoherent(s, unitsExp)
 	var out []*sx.Node
 	unstable := map[string]bool{} // calls whose own repetitions disagreed: nothing to compare later
 	for _, o := range calls {
@@ -243,6 +285,7 @@ func c12RunHistory(mk func() schema.Type, calls []*sx.Node, probes []*sx.Node, c
 		if desc == "same" && c12Desc(s) != desc0 {
 			desc = "changed"
 		}
+		unitsOK = unitsOK && c12UnitsCoherent(s, unitsExp)
 	}
 	fresh := mk()
 	if c12Desc(fresh) != desc0 {
@@ -252,7 +295,6 @@ func c12RunHistory(mk func() schema.Type, calls []*sx.Node, probes []*sx.Node, c
 	if c12State(s) != state0 || c12State(s) != c12State(fresh) {
 		st = "changed"
 	}
-	out = append(out, sx.L(sx.A("state"), sx.A(st)))
 	after := "same"
 	for _, o := range append(append([]*sx.Node{}, calls...), probes...) {
 		if unstable[o.String()] {
@@ -275,6 +317,21 @@ func c12RunHistory(mk func() schema.Type, calls []*sx.Node, probes []*sx.Node, c
 		if !common {
 			after = "differs"
 		}
+		// ... and once on an instance that has seen NOTHING - not even the earlier calls of this loop (a rejected call
+		// among them that spoils the instance spoils `fresh` in the same way, and the two then agree again)
+		{
+			a, _ := c12Eval(mk(), o)
+			if !used[a] {
+				again := false
+				for i := 0; i < c12Reps && !again; i++ {
+					b, _ := c12Eval(s, o)
+					again = b == a
+				}
+				if !again {
+					after = "differs"
+				}
+			}
+		}
 		if mkLit != nil {
 			// first use of an instance whose caches are still empty (one instance per call: nothing came before)
 			lit := mkLit()
@@ -291,6 +348,14 @@ func c12RunHistory(mk func() schema.Type, calls []*sx.Node, probes []*sx.Node, c
 			}
 		}
 	}
+	// the public face of the unit caches: the Format functions of every units definition, used vs untouched instance
+	if c12UnitsFormat(s) != c12UnitsFormat(mk()) {
+		after = "differs"
+	}
+	if !unitsOK || !c12UnitsCoherent(s, unitsExp) || !c12UnitsCoherent(fresh, unitsExp) {
+		st = "changed"
+	}
+	out = append(out, sx.L(sx.A("state"), sx.A(st)))
 	out = append(out, sx.L(sx.A("after"), sx.A(after)))
 	// ... and after the probes (the empty map leaves every property unset: the rejections of the presence rules)
 	if c12Desc(s) != desc0 || c12Desc(fresh) != desc0 {
@@ -856,6 +921,13 @@ func init() {
 				}
 				emit(c12Case(sc, calls))
 			}
+			// unit-bearing FLOAT / integer schemas with histories "rejected text, then multi-term texts whose exact sum is
+			// not a float64" (c12_units.go); at the end: the streams above stay as they were
+			nUnits := 36
+			if tier == "thorough" {
+				nUnits = 600
+			}
+			c12UnitCases(r, nUnits, emit)
 		}),
 		Run: func(p *sx.Node) *sx.Node {
 			mk := func() schema.Type { return buildWithEnv(p.List[1], p.List[2]) }
